@@ -27,7 +27,7 @@ structure Family (σ : Type) where
   compare : Bool := true
   /-- after a DIFF: rebuild the model state from the implementation's observation (the line) so that the
       spec monitors keep watching the implementation's own trajectory; without it the case is skipped -/
-  resync : Option (σ → Json → Except String σ) := none
+  resync : Option (σ → σ → Json → Except String σ) := none   -- pre-state, model post-state, line
 
 def jget (j : Json) (k : String) : Except String Json :=
   match j.getObjVal? k with
@@ -152,7 +152,7 @@ partial def driverLoop {σ : Type} (fam : Family σ) (h : IO.FS.Stream) (st : σ
               IO.println s!"DIFF {lineNo} impl={iout.compress} model={mout.compress}"
             match fam.resync with
             | some f =>
-              match f st' j with
+              match f st st' j with
               | .ok st'' => st' := st''; c := { c with diffs := c.diffs + 1 }
               | .error _ => c := { c with diffs := c.diffs + 1, poisoned := true }
             | none => c := { c with diffs := c.diffs + 1, poisoned := true }
